@@ -145,14 +145,14 @@ static void part_reuse(void) {
 	for (int i = 0; i < 4; i++) { rb_init(&o, f[nf], sizeof f[0]); size_t n = SZ[i] == UINT64_MAX ? 50 : (size_t)SZ[i]; ref_alone_build(&o, 93, DI[i], SZ[i], plain + 10 * i, n, SZ[i] == UINT64_MAX || i == 2, scratch, sizeof scratch); fl[nf] = o.len; kind[nf++] = D_ALONE; }
 	for (int i = 0; i < 2; i++) { rb_init(&o, f[nf], sizeof f[0]); ref_lzip_member(&o, (unsigned)i, 0x0C + (unsigned)i * 3, plain + 7 * i, 60 + 100 * (size_t)i, 0, 0, 0, scratch, sizeof scratch); fl[nf] = o.len; kind[nf++] = D_LZIP; }
 	for (int i = 0; i < 2; i++) { rb_init(&o, f[nf], sizeof f[0]); ref_block b = { .data = plain + 3 * i, .len = 90 + 200 * (size_t)i, .dict_byte = (unsigned)i * 6, .ndelta = i }; b.delta_dist[0] = 2; ref_xz_stream(&o, &b, 1, i ? 10 : 1, NULL); fl[nf] = o.len; kind[nf++] = D_STREAM; }
-	for (int a = 0; a < nf; a++) for (int b = 0; b < nf; b++) for (int cut = 0; cut < 3; cut++) for (int dk = 0; dk < 2; dk++) for (int cc = 0; cc < 2; cc++) for (int bv = 0; bv < 4; bv++) {
+	for (int a = 0; a < nf; a++) for (int b = 0; b < nf; b++) for (int cut = 0; cut < 6; cut++) for (int dk = 0; dk < 2; dk++) for (int cc = 0; cc < 2; cc++) for (int bv = 0; bv < 4; bv++) { if (cut >= 3 && bv > 1) continue;
 		int ka = dk ? D_AUTO : kind[a], kb = dk ? D_AUTO : kind[b]; uint32_t flg = cc ? LZMA_CONCATENATED : 0; if (cc && (ka == D_ALONE || kb == D_ALONE)) continue;
 		// second file: as it is, first byte damaged, cut to 2 bytes, empty
 		static uint8_t second[4096]; size_t lb = fl[b]; memcpy(second, f[b], lb); if (bv == 1) second[0] ^= 1; if (bv == 2) lb = 2; if (bv == 3) lb = 0;
-		snprintf(desc, sizeof desc, "reuse: file%d via %s (%s) then file%d (%s) via %s on the same lzma_stream%s", a, DN[ka], cut == 0 ? "complete" : cut == 1 ? "first half only" : "corrupted", b, bv == 0 ? "intact" : bv == 1 ? "first byte damaged" : bv == 2 ? "first 2 bytes only" : "empty", DN[kb], cc ? ", LZMA_CONCATENATED" : ""); H_CASE("c16 %s", desc); n_files++;
+		snprintf(desc, sizeof desc, "reuse: file%d via %s (%s) then file%d (%s) via %s on the same lzma_stream%s", a, DN[ka], cut == 0 ? "complete" : cut == 1 ? "first half only" : cut == 2 ? "corrupted" : cut == 3 ? "first 3 bytes only" : cut == 4 ? "first 8 bytes only" : "first 12 bytes only", b, bv == 0 ? "intact" : bv == 1 ? "first byte damaged" : bv == 2 ? "first 2 bytes only" : "empty", DN[kb], cc ? ", LZMA_CONCATENATED" : ""); H_CASE("c16 %s", desc); n_files++;
 		res fresh = lib(kb, flg, second, lb, 0, NULL); static uint8_t fo[1 << 16]; memcpy(fo, o1, fresh.tout);
-		lzma_stream s = LZMA_STREAM_INIT; static uint8_t tmp[4096]; memcpy(tmp, f[a], fl[a]); size_t la = fl[a]; if (cut == 1) la /= 2; if (cut == 2) tmp[la - 3] ^= 0x5A;
-		(void)lib(ka, flg, tmp, la, 0, &s);
+		lzma_stream s = LZMA_STREAM_INIT; static uint8_t tmp[4096]; memcpy(tmp, f[a], fl[a]); size_t la = fl[a]; if (cut == 1) la /= 2; if (cut == 2) tmp[la - 3] ^= 0x5A; if (cut == 3) la = 3; if (cut == 4) la = 8; if (cut == 5) la = 12;
+		(void)lib(ka, flg, tmp, la, cut >= 3 ? 2 : 0, &s);
 		res again = lib(kb, flg, second, lb, 0, &s); lzma_end(&s); n_cmp++;
 		if (again.r != fresh.r || again.tout != fresh.tout || again.tin != fresh.tin || memcmp(fo, o1, fresh.tout)) FAILC("reuse", "second file decoded on a reused handle: ret=%d in=%zu out=%zu, on a fresh handle: ret=%d in=%zu out=%zu", again.r, again.tin, again.tout, fresh.r, fresh.tin, fresh.tout);
 	}
